@@ -4,7 +4,8 @@ Open Scope N_scope.
 
 Inductive amdata :=
 | AMNone
-| AMDwarf (p : pres) (sec : list fde).
+| AMDwarf (p : pres) (sec : list fde)
+| AMPe.                       (* PE module on aarch64: PeUnwinderError::Aarch64Unsupported *)
 
 Definition amodule := module amdata.
 
@@ -14,6 +15,7 @@ Definition cb_a64 (md : amodule) (first : bool) (rel : N) (rg : aregs) (m : mem)
   | AMNone => (CbErr rg, no_eff)
   | AMDwarf p sec =>
     cb_dwarf arule aregs row_step_a64 uncovered_rule_a64 true p sec (base_svma md) first rel rg m
+  | AMPe => (CbErr rg, no_eff)
   end.
 
 Definition aunwinder := unwinder amdata.
